@@ -96,7 +96,7 @@ Proof.
   - subst cb. cbn in Hlen. subst ncb. exists None. split; [reflexivity|].
     destruct cc as [|i cc].
     + cbn in Hv. assert (v = 0%N) by lia. subst v. reflexivity.
-    + specialize (Hin i (or_introl eq_refl)). apply Nat.ltb_lt in Hin. lia.
+    + specialize (Hin i (or_introl eq_refl)). cbn in Hin. discriminate Hin.
 Qed.
 
 (* ---- scaling facts ---------------------------------------------------------------------------- *)
@@ -113,12 +113,12 @@ Proof.
   intros P u q b HP Hn Hk p.
   assert (Hp0 : p <> 0) by (apply (L_keep X L); exact Hk).
   assert (Hpp : fpos X p) by (split; [apply (L_nrm_pos X L)|exact Hp0]).
-  destruct HP as [HP1 HP2].
-  assert (E : p = nrm X (proj X q b u) / P) by (apply p_formula; split; assumption).
+  pose proof HP as [HP1 HP2].
+  assert (E : p = nrm X (proj X q b u) / P) by (apply p_formula; exact HP).
   repeat split; try assumption.
-  - unfold p at 2. rewrite (L_proj_renorm X L) by (split; assumption).
-    rewrite (L_renorm_renorm X L) by (try split; assumption).
-    f_equal. ring.
+  - transitivity (renorm X p (renorm X P (proj X q b u))).
+    + f_equal. apply (L_proj_renorm X L). exact HP.
+    + rewrite (L_renorm_renorm X L) by (first [exact Hpp | exact HP]). f_equal. ring.
   - rewrite E. field. exact HP2.
   - apply fmul_neq_0; assumption.
   - apply (L_nrm_pos X L).
@@ -150,7 +150,7 @@ Proof.
     split; [apply frame_refl|]. split; [reflexivity|]. split.
     + intros _. rewrite Hn. auto.
     + intros E. congruence.
-  - assert (HfP : fpos X P) by (rewrite <- Hn; apply fpos_nrm; rewrite Hn; exact HP).
+  - assert (HfP : fpos X P) by (rewrite <- Hn; apply (fpos_nrm X L); rewrite Hn; exact HP).
     cbn [wf forallb] in Hwf. apply andb_true_iff in Hwf. destruct Hwf as [Hwo Hwt].
     cbn [run_ops]. unfold step. rewrite Hst.
     destruct o as [g [[cc v]|]|q st].
@@ -209,6 +209,44 @@ Proof.
         split; [intros Hc; contradiction|]. intros _. split; [reflexivity|]. rewrite Hpr. ring.
 Qed.
 
+(* np.random.choice in _apply_measurement: whatever the oracle says, an outcome of non-zero probability is taken *)
+Lemma apply_meas_rand : forall orc mres q st h (m : mach) s, truthy mres = None ->
+  pok X (nrm X (proj X q false s)) = true -> pok X (nrm X (proj X q true s)) = true ->
+  nrm X (proj X q false s) + nrm X (proj X q true s) = 1 ->
+  exists b, nrm X (proj X q b s) <> 0 /\ keepb X (nrm X (proj X q b s)) = true /\
+    apply_meas X q st mres orc h m s =
+    match store_bit X st b h m with
+    | Err => Err
+    | Ok h' => Ok (h', mkMach X (Some (renorm X (nrm X (proj X q b s)) (proj X q b s))) (m_cb X m)
+                              (m_prob X m * (nrm X (proj X q b s) / 1)) (m_mind X m) (S (m_rand X m)))
+    end.
+Proof.
+  intros orc mres q st h m s Htr Hpok0 Hpok1 Htot.
+  assert (Hsnd : forall b, snd (meas_out X q s b) = nrm X (proj X q b s)).
+  { intros b. unfold meas_out. destruct (keepb X (nrm X (proj X q b s))) eqn:Ek; [reflexivity|].
+    cbn [snd]. symmetry. destruct b; [apply (pok_cases X L _ Hpok1 Ek)|apply (pok_cases X L _ Hpok0 Ek)]. }
+  assert (Hkeep : forall b, nrm X (proj X q b s) <> 0 -> keepb X (nrm X (proj X q b s)) = true).
+  { intros b Hb. destruct (keepb X (nrm X (proj X q b s))) eqn:Ek; [reflexivity|]. exfalso. apply Hb.
+    destruct b; [apply (pok_cases X L _ Hpok1 Ek)|apply (pok_cases X L _ Hpok0 Ek)]. }
+  assert (Hd1 : forall x, x / 1 = x) by (intros; field; apply (f1_neq_0 X L)).
+  assert (Hother : forall b, nrm X (proj X q b s) = 0 -> nrm X (proj X q (negb b) s) <> 0).
+  { intros b Hb Hc. apply (f1_neq_0 X L). rewrite <- Htot. destruct b; cbn [negb] in Hc; rewrite Hb, Hc; ring. }
+  unfold apply_meas. rewrite Htr, !Hsnd, Htot, (proj2 (feqb_false X L 1 0) (f1_neq_0 X L)).
+  destruct (orc (m_rand X m)); rewrite Hsnd, Hd1.
+  - destruct (feqb X (nrm X (proj X q true s)) 0) eqn:Ew; cbn [negb].
+    + apply (L_feqb X L) in Ew. pose proof (Hother true Ew) as Hnz. cbn [negb] in Hnz.
+      exists false. split; [exact Hnz|]. split; [apply Hkeep; exact Hnz|].
+      rewrite Hsnd. unfold meas_out. rewrite (Hkeep false Hnz). reflexivity.
+    + apply (feqb_false X L) in Ew. exists true. split; [exact Ew|]. split; [apply Hkeep; exact Ew|].
+      rewrite Hsnd. unfold meas_out. rewrite (Hkeep true Ew). reflexivity.
+  - destruct (feqb X (nrm X (proj X q false s)) 0) eqn:Ew; cbn [negb].
+    + apply (L_feqb X L) in Ew. pose proof (Hother false Ew) as Hnz. cbn [negb] in Hnz.
+      exists true. split; [exact Hnz|]. split; [apply Hkeep; exact Hnz|].
+      rewrite Hsnd. unfold meas_out. rewrite (Hkeep true Hnz). reflexivity.
+    + apply (feqb_false X L) in Ew. exists false. split; [exact Ew|]. split; [apply Hkeep; exact Ew|].
+      rewrite Hsnd. unfold meas_out. rewrite (Hkeep false Ew). reflexivity.
+Qed.
+
 (* unconstrained run: for every random oracle the run follows SOME record of non-zero probability *)
 Lemma run_ops_rand : forall orc ncb mres, truthy mres = None ->
   forall ops h (m : mach) u cb P,
@@ -224,7 +262,7 @@ Proof.
     unfold post_ok. split; [apply frame_refl|]. split; [reflexivity|]. split.
     + intros _. rewrite Hn. auto.
     + intros E. congruence.
-  - assert (HfP : fpos X P) by (rewrite <- Hn; apply fpos_nrm; rewrite Hn; exact HP).
+  - assert (HfP : fpos X P) by (rewrite <- Hn; apply (fpos_nrm X L); rewrite Hn; exact HP).
     cbn [wf forallb] in Hwf. apply andb_true_iff in Hwf. destruct Hwf as [Hwo Hwt].
     cbn [run_ops]. unfold step. rewrite Hst.
     destruct o as [g [[cc v]|]|q st].
@@ -244,41 +282,18 @@ Proof.
       { rewrite (L_unitary X L). exact Hn. }
       intros r Hr. specialize (Hcl r Hr). rewrite (L_gate_renorm X L) in Hcl by exact HfP. exact Hcl.
     + rewrite nmeas_cons_meas in *.
-      unfold apply_meas. rewrite Htr.
       set (s := renorm X P u) in *.
-      set (p0 := nrm X (proj X q false s)). set (p1 := nrm X (proj X q true s)).
-      (* both outcome probabilities are kept or exactly zero *)
-      assert (Hpoks : pok X p0 = true /\ pok X p1 = true).
+      assert (Hpoks : pok X (nrm X (proj X q false s)) = true /\ pok X (nrm X (proj X q true s)) = true).
       { specialize (Hcl (false :: repeat false (nmeas X tl))). cbn [clear] in Hcl.
         rewrite !andb_true_iff in Hcl. cbn [length] in Hcl. rewrite repeat_length in Hcl.
         destruct (Hcl eq_refl) as [[A B] _]. split; assumption. }
       destruct Hpoks as [Hpok0 Hpok1].
-      assert (Hsnd : forall b, snd (meas_out X q s b) = nrm X (proj X q b s)).
-      { intros b. unfold meas_out. destruct (keepb X (nrm X (proj X q b s))) eqn:Ek; [reflexivity|].
-        cbn [snd]. symmetry. destruct b; [apply (pok_cases X L _ Hpok1 Ek)|apply (pok_cases X L _ Hpok0 Ek)]. }
-      assert (Htot : snd (meas_out X q s false) + snd (meas_out X q s true) = 1).
-      { rewrite !Hsnd, (L_complete X L). unfold s. rewrite (L_nrm_renorm X L) by exact HfP.
-        rewrite Hn. field. exact HP. }
-      rewrite Htot. rewrite (proj2 (feqb_false X L 1 0) (f1_neq_0 X L)).
-      set (pick := fun b : bool => if b then meas_out X q s true else meas_out X q s false).
-      assert (Hpick : forall b, pick b = meas_out X q s b) by (intros [|]; reflexivity).
-      set (w := orc (m_rand X m)).
-      set (b := if feqb X (snd (pick w) / 1) 0 then negb w else w).
-      (* the chosen outcome has non-zero probability *)
-      assert (Hb : nrm X (proj X q b s) <> 0).
-      { unfold b. destruct (feqb X (snd (pick w) / 1) 0) eqn:Ew.
-        - apply (L_feqb X L) in Ew. rewrite Hpick, Hsnd in Ew.
-          assert (Ew' : nrm X (proj X q w s) = 0) by (rewrite <- Ew; field; apply (f1_neq_0 X L)).
-          rewrite !Hsnd in Htot. intros Hc.
-          apply (f1_neq_0 X L). rewrite <- Htot.
-          destruct w; cbn [negb] in Hc; rewrite Ew', Hc; ring.
-        - apply (feqb_false X L) in Ew. rewrite Hpick, Hsnd in Ew. intros Hc. apply Ew. rewrite Hc. field. apply (f1_neq_0 X L). }
-      assert (Ek : keepb X (nrm X (proj X q b s)) = true).
-      { destruct (keepb X (nrm X (proj X q b s))) eqn:Ek; [reflexivity|]. exfalso. apply Hb.
-        destruct b; [apply (pok_cases X L _ Hpok1 Ek)|apply (pok_cases X L _ Hpok0 Ek)]. }
-      fold pick. fold w. fold b.
+      assert (Htot : nrm X (proj X q false s) + nrm X (proj X q true s) = 1).
+      { rewrite (L_complete X L). unfold s. rewrite (L_nrm_renorm X L) by exact HfP. rewrite Hn. field. exact HP. }
+      destruct (apply_meas_rand orc mres q st h m s Htr Hpok0 Hpok1 Htot) as [b [Hb [Ek Happ]]].
+      rewrite Happ.
       destruct (store_bit_spec (q, st) b h m cb ncb Hrel Hlen Hwo) as [h1 [Hsb [Hrel1 Hfr1]]]. cbn [snd] in *.
-      rewrite Hsb. rewrite (Hpick b). unfold meas_out at 1 2. rewrite Ek. cbn [fst snd m_st].
+      rewrite Hsb. cbn [m_st].
       unfold s in Ek. destruct (kept_facts P u q b HfP Hn Ek) as [Est [Enu [Hne Hfp]]]. fold s in Est, Enu, Hne, Hfp, Ek.
       set (p := nrm X (proj X q b s)) in *.
       rewrite Est.
@@ -288,7 +303,7 @@ Proof.
       { rewrite write_length. exact Hlen. }
       { rewrite Hpr. field. apply (f1_neq_0 X L). }
       { intros r Hr. specialize (Hcl (b :: r)). cbn [clear length] in Hcl. rewrite Hr in Hcl. specialize (Hcl eq_refl).
-        rewrite !andb_true_iff in Hcl. destruct Hcl as [_ Hcl]. fold s in Hcl. fold p in Hcl. rewrite Ek, Est in Hcl. exact Hcl. }
+        rewrite !andb_true_iff in Hcl. destruct Hcl as [_ Hcl]. fold p in Hcl. rewrite Ek, Est in Hcl. exact Hcl. }
       cbn [m_cb] in Hrun, Hpost. exists (b :: r'), h', m'. split; [cbn; congruence|]. split; [exact Hrun|].
       cbn [ubranch]. split; [exact Hnz|].
       destruct Hpost as [Hfr [Hcb Hrest]]. split; [eapply frame_trans; eassumption|]. split; [exact Hcb|exact Hrest].
